@@ -312,6 +312,11 @@ class Check:
         return summ
 
     # ---- verdict
+    def new_violations(self):
+        """Failures recorded so far that are neither drift nor listed as open known findings."""
+        findings = {(f["site"], f["aspect"]) for f in load_findings() if f.get("property") == self.pid and f.get("status") == "open"}
+        return [f for f in self.failures if not f["drift"] and (f["site"], f["aspect"]) not in findings]
+
     def finish(self, rule="", trusted=None):
         findings = [f for f in load_findings() if f.get("property") == self.pid and f.get("status") == "open"]
         known_hit = {}
